@@ -259,6 +259,12 @@ func (c *e2eCtx) trackAndJudge(s *scenario, decoys bool, r *rand.Rand) {
 		c.violate("C06", "tree does not parse after clean: "+err.Error(), rp(nil))
 		return
 	}
+	// hand-written marker blocks in paths no command may touch (decoys) are not artefacts to remove
+	for p := range in2.Markers {
+		if !eligible(p, s.cfg) {
+			delete(in2.Markers, p)
+		}
+	}
 	if len(in2.Calls) > 0 || len(in2.Serve) > 0 || len(in2.Markers) > 0 || len(in2.Imports) > 0 {
 		c.violate("C06", fmt.Sprintf("artefacts left after clean: %d calls, %d service starts, marker files %v, import files %v",
 			len(in2.Calls), len(in2.Serve), keysOf(in2.Markers), keysOfB(in2.Imports)), rp(nil))
@@ -307,35 +313,41 @@ func (c *e2eCtx) trackAndJudge(s *scenario, decoys bool, r *rand.Rand) {
 }
 
 func (c *e2eCtx) judgeC05(s *scenario, in *oracle.Instrumentation, rp func(map[string]any) map[string]any) {
+	c.judgeC05As("C05", s, in, rp)
+}
+
+// judgeC05As: the numbering / table / service-start oracle, reported under the given property
+// tag(s) (comma separated: after goat patch the same facts are also part of C10's statement).
+func (c *e2eCtx) judgeC05As(tag string, s *scenario, in *oracle.Instrumentation, rp func(map[string]any) map[string]any) {
 	genPath := filepath.Join(s.dir, s.cfg.PkgPath, "goat_generated.go")
 	g, err := oracle.ParseGenerated(genPath)
 	if err != nil {
-		c.violate("C05", "generated file does not parse: "+err.Error(), rp(nil))
+		c.violate(tag, "generated file does not parse: "+err.Error(), rp(nil))
 		return
 	}
 	n := len(in.Calls)
 	if n == 0 {
 		if g.Exists {
-			c.violate("C05", "generated file exists although no tracking call was inserted", rp(nil))
+			c.violate(tag, "generated file exists although no tracking call was inserted", rp(nil))
 		}
 		return
 	}
 	if !g.Exists {
-		c.violate("C05", "tracking calls present but the generated file is missing", rp(nil))
+		c.violate(tag, "tracking calls present but the generated file is missing", rp(nil))
 		return
 	}
 	for i, call := range in.Calls {
 		if call.ID != i+1 {
-			c.violate("C05", fmt.Sprintf("tracking calls are not numbered 1..N by path and source order: call %d (%s:%d) has id %d", i+1, call.Path, call.Line, call.ID), rp(nil))
+			c.violate(tag, fmt.Sprintf("tracking calls are not numbered 1..N by path and source order: call %d (%s:%d) has id %d", i+1, call.Path, call.Line, call.ID), rp(nil))
 			break
 		}
 	}
 	if len(g.IDs) != n || g.End != n+1 {
-		c.violate("C05", fmt.Sprintf("generated package declares %d ids (END=%d) for %d calls", len(g.IDs), g.End, n), rp(nil))
+		c.violate(tag, fmt.Sprintf("generated package declares %d ids (END=%d) for %d calls", len(g.IDs), g.End, n), rp(nil))
 	}
 	for name, v := range g.IDs {
 		if name != fmt.Sprintf("TRACK_ID_%d", v) {
-			c.violate("C05", fmt.Sprintf("constant %s has value %d", name, v), rp(nil))
+			c.violate(tag, fmt.Sprintf("constant %s has value %d", name, v), rp(nil))
 			break
 		}
 	}
@@ -352,7 +364,7 @@ func (c *e2eCtx) judgeC05(s *scenario, in *oracle.Instrumentation, rp func(map[s
 		}
 	}
 	if len(g.Names) != len(mains) || len(g.Components) != len(mains) {
-		c.violate("C05", fmt.Sprintf("generated package has %d components for %d main packages", len(g.Names), len(mains)), rp(nil))
+		c.violate(tag, fmt.Sprintf("generated package has %d components for %d main packages", len(g.Names), len(mains)), rp(nil))
 		return
 	}
 	selected := func(dir string) bool {
@@ -371,7 +383,7 @@ func (c *e2eCtx) judgeC05(s *scenario, in *oracle.Instrumentation, rp func(map[s
 			}
 		}
 		if ci < 0 {
-			c.violate("C05", "no component for main package "+pk.Dir, rp(nil))
+			c.violate(tag, "no component for main package "+pk.Dir, rp(nil))
 			continue
 		}
 		var want []int
@@ -381,16 +393,16 @@ func (c *e2eCtx) judgeC05(s *scenario, in *oracle.Instrumentation, rp func(map[s
 		sort.Ints(want)
 		got := append([]int{}, g.Components[ci]...)
 		if fmt.Sprint(got) != fmt.Sprint(want) {
-			c.violate("C05", fmt.Sprintf("component %d (%s) lists ids %v, the identifiers in its import closure are %v", ci, pk.Dir, got, want), rp(nil))
+			c.violate(tag, fmt.Sprintf("component %d (%s) lists ids %v, the identifiers in its import closure are %v", ci, pk.Dir, got, want), rp(nil))
 		}
 		mf := filepath.Join(pk.Dir, "main.go")
 		serve := in.Serve[mf]
 		if selected(pk.Dir) && len(want) > 0 {
 			if len(serve) != 1 || serve[0] != ci || !in.ServeFirst[mf] {
-				c.violate("C05", fmt.Sprintf("main package %s (component %d, %d ids) must start the service once as the first statement of main with its own id; found %v first=%v", pk.Dir, ci, len(want), serve, in.ServeFirst[mf]), rp(nil))
+				c.violate(tag, fmt.Sprintf("main package %s (component %d, %d ids) must start the service once as the first statement of main with its own id; found %v first=%v", pk.Dir, ci, len(want), serve, in.ServeFirst[mf]), rp(nil))
 			}
 		} else if len(serve) != 0 {
-			c.violate("C05", fmt.Sprintf("main package %s starts the service although it is not selected or has no tracking point", pk.Dir), rp(nil))
+			c.violate(tag, fmt.Sprintf("main package %s starts the service although it is not selected or has no tracking point", pk.Dir), rp(nil))
 		}
 	}
 }
